@@ -120,7 +120,12 @@ def run(tier, seed):
     f = consensus.get_block_subsidy
     prev = None
     for h in boundary_heights(ck.rng, source_literals()):
-        s = f(h)
+        try:
+            s = f(h)
+        except Exception as e:
+            ck.violation('subsidy-raises', 'get_block_subsidy(%d) raises %s' % (h, type(e).__name__),
+                         {'kind': 'height', 'height': h})
+            break
         ck.case(('h', h), sample={'height': h, 'subsidy': s} if h in (0, DOC_INTERVAL - 1, DOC_INTERVAL, 31499999, 31500000) else None,
                 kind='zero' if s == 0 else 'era%d' % (h // DOC_INTERVAL))
         if s != spec(h):
@@ -133,7 +138,10 @@ def run(tier, seed):
             break
         prev = (h, s)
     # total by eras (exact if the function is constant inside eras, which the sweep / theorem establishes)
-    total = sum(f(k * DOC_INTERVAL) * DOC_INTERVAL for k in range(0, 70))
+    try:
+        total = sum(f(k * DOC_INTERVAL) * DOC_INTERVAL for k in range(0, 70))
+    except Exception:
+        total = -1
     ck.case(('total',), sample={'era_total': total})
     if total != DOC_MAX or params.MAX_SASHIMI != DOC_MAX:
         ck.violation('total-supply', 'sum of subsidies over all eras = %d, MAX_SASHIMI = %d, documented %d'
@@ -175,7 +183,11 @@ def replay(path):
     from skepticoin import consensus
     if rp.get('kind') == 'height':
         h = rp['height']
-        print('get_block_subsidy(%d) = %d ; documented schedule: %d' % (h, consensus.get_block_subsidy(h), spec(h)))
-        return 0 if consensus.get_block_subsidy(h) == spec(h) else 1
+        try:
+            got = consensus.get_block_subsidy(h)
+        except Exception as e:
+            got = 'raises %r' % (e,)
+        print('get_block_subsidy(%d) = %s ; documented schedule: %d' % (h, got, spec(h)))
+        return 0 if got == spec(h) else 1
     print(json.dumps(d, indent=1))
     return 1
